@@ -1,6 +1,22 @@
 """C20 — the golden-file helper compares faithfully and only writes when told to."""
-from analysis import mir, q, tables
+from analysis import mir, q, tables, inline
 from analysis.mir import norm, callee, callee_def, callee_names, prov
+
+_POL = inline.helpers_policy(keep=("::is_update_golden", "::read_as_utf8", "::Golden::new", "::Golden::assert"))
+
+
+def view(P, key):
+    """the function with its private helpers (anything in the crate that is not a named anchor) inlined"""
+    return inline.inlined(P, key, _POL)
+
+
+def helper_keys(P):
+    """private helpers that are only reached through the anchored functions (their code is judged inlined)"""
+    out = set()
+    for root in (ASSERT, NEW, UPD, READ):
+        if root in P.bodies:
+            out |= set(view(P, root).inlined_callees)
+    return out
 
 EXPLANATION = (
     "Static who-may-write / dominance / provenance rules over the okane_golden crate (all non-test bodies). "
@@ -68,14 +84,17 @@ def is_update_false_edge(b, bb):
 def who_may_write(P, chk):
     muts = set(norm(m) for m in MUTATORS)
     sites = []
-    for b in golden_bodies(P):
+    hk = helper_keys(P)
+    bodies = [b for b in golden_bodies(P) if b.key not in hk and b.key.split("::{closure")[0] not in hk]
+    bodies = [view(P, b.key) if b.key in (ASSERT, NEW) else b for b in bodies]
+    for b in bodies:
         chk.analysed(b)
         for bb, t in b.calls():
             if callee_names(t) & muts:
                 sites.append((b, bb, t))
     chk.add_sites(len(sites))
     chk.floor("file-mutating call sites in okane_golden (positive control)", len(sites), 1)
-    a = P.body(ASSERT)
+    a = view(P, ASSERT)
     for b, bb, t in sites:
         name = short(callee_def(t))
         key = "%s|%s" % (b.key, name)
@@ -153,9 +172,9 @@ def update_switch(P, chk):
     # a non-emptiness test of the value decides the result
     ok, detail = nonempty_decides(P, b, rbb)
     chk.require(ok, R_ENV, "is_update_golden|true only for a non-empty value", b.loc(), detail, detail)
-    # consistency: both users go through it
+    # consistency: both users go through it (helpers judged inlined into their caller)
     users = set()
-    for gb in golden_bodies(P):
+    for gb in [view(P, ASSERT), view(P, NEW)] + [x for x in golden_bodies(P) if x.is_closure]:
         for bb, t in gb.calls():
             if UPD in callee_names(t):
                 users.add(gb.key.split("::{closure")[0])
@@ -243,7 +262,8 @@ def missing_golden(P, chk):
     chk.require(okp, R_NEW, "Golden::new|path field is the path parameter", nb.loc(abb),
                 "Golden.path = %s" % mir.prov_strs(nb, fields["path"]), "path")
     cont = q.chains(nb, fields["content"])
-    okc = bool(cont) and all(any(n == READ for n in cn) or (r.kind == "call" and r.name == READ) for cn, r in cont)
+    okc = bool(cont) and any(any(n == READ for n in cn) or (r.kind == "call" and r.name == READ) for cn, r in cont) and \
+        all(any(n == READ for n in cn) or (r.kind == "call" and r.name in (READ, "std::string::String::new")) for cn, r in cont)
     chk.require(okc, R_NEW, "Golden::new|content comes from read_as_utf8(path)", nb.loc(abb),
                 "Golden.content = %s" % mir.prov_strs(nb, fields["content"]), "read_as_utf8(&path) .. ?")
     reads = [(bb, t) for bb, t in nb.calls() if READ in callee_names(t)]
@@ -281,6 +301,24 @@ def missing_golden(P, chk):
             emp = q.all_roots(b, payload, lambda r: r.kind == "call" and r.name in ("std::string::String::new", "std::default::Default::default"))
             chk.require(emp, R_NEW, "%s|fallback content is empty" % b.key, b.loc(bb),
                         "fallback content is %s" % mir.prov_strs(b, payload), "String::new()")
+    for cn, r in cont:
+        if r.kind == "call" and r.name == "std::string::String::new" and r.site is not None:
+            n_fallback += 1
+            bb = r.site
+            upd = is_update_true_edge(nb, bb)
+            nf = False
+            for cn2, lab, ct in q.guard_calls(nb, bb):
+                if callee_def(ct) == "std::cmp::PartialEq::eq" and lab is True or callee_def(ct) == "std::cmp::PartialEq::ne" and lab is False:
+                    sides = [ct["args"][0], ct["args"][1]]
+                    kinds = [any(x.kind == "call" and x.name == "std::io::Error::kind" for x in prov(nb, sd)) for sd in sides]
+                    consts = [const_promoted(nb, sd) for sd in sides]
+                    if any(kinds) and any("std::io::ErrorKind::NotFound" in c for c in consts):
+                        nf = True
+            for roots, labs in q.variant_guards(nb, bb):
+                if labs == ("NotFound",) and any(x.kind == "call" and x.name == "std::io::Error::kind" for x in roots):
+                    nf = True
+            chk.require(upd and nf, R_NEW, "%s|fallback content only for NotFound in update mode" % nb.key, nb.loc(bb),
+                        "an empty Golden is produced with update-mode guard=%s, NotFound guard=%s" % (upd, nf), "kind()==NotFound && is_update_golden()")
     chk.require(n_fallback <= 1, R_NEW, "Golden::new|at most one fallback", nb.loc(), "%d fallback values" % n_fallback, "%d" % n_fallback)
     # every Err built in the closure on the non-update edge or passing the original error: nothing swallows errors
     swallow = []
@@ -321,7 +359,7 @@ def const_promoted(b, operand):
 
 
 def faithful_compare(P, chk):
-    a = P.body(ASSERT)
+    a = view(P, ASSERT)
     chk.analysed(a)
     rets = a.return_blocks()
     eqs = [(bb, t) for bb, t in a.calls() if callee_def(t) in ("std::cmp::PartialEq::eq", "std::cmp::PartialEq::ne")]
@@ -372,29 +410,38 @@ def faithful_compare(P, chk):
     chk.require(okr and pan, R_CMP, "Golden::assert|returns only after the comparison said equal; unequal panics", a.loc(cbb),
                 "a normal return is possible without / despite the comparison (equal-edge-only=%s, unequal-panics=%s)" % (okr, pan),
                 "eq true -> return; eq false -> panic")
-    # want on the read edge is self.content, on the update edge got: per-edge definitions
-    wl = [i for i, l in enumerate(a.locals) if l["name"] == "want"]
-    okw = True
+    # want on the read edge is self.content, on the update edge got: per-edge definitions of the compared value
+    sides = [ct["args"][0], ct["args"][1]]
+    want_side = None
+    for sd in sides:
+        rs = prov(a, sd)
+        if any(q.is_param(r, "self", ("content",)) for r in rs):
+            want_side = sd
+    okw = want_side is not None
     detail = []
-    for l in wl:
-        for dk, dbb, di, dpl, payload in a.defs().get(l, []):
-            if dk != "assign":
-                okw = False
+    if okw:
+        for dbb, src in q.phi_defs(a, want_side):
+            if src is None or dbb is None:
+                # single definition: must be self.content itself, chosen in read mode - then no update-mode value exists
+                rs = prov(a, want_side)
+                if not all(q.is_param(r, "self", ("content",)) or q.is_param(r, "got") for r in rs):
+                    okw = False
+                    detail.append("want = %s" % sorted(mir.show_root(r) for r in rs))
                 continue
-            src = prov(a, payload["op"]) if payload["k"] == "use" else prov(a, payload.get("place", {"l": l, "p": []}))
-            if all(q.is_param(r, "self", ("content",)) for r in src):
+            srs = prov(a, src)
+            if srs and all(q.is_param(r, "self", ("content",)) for r in srs):
                 if not is_update_false_edge(a, dbb):
                     okw = False
                     detail.append("self.content chosen without is_update_golden()==false")
-            elif all(q.is_param(r, "got") for r in src):
+            elif srs and all(q.is_param(r, "got") for r in srs):
                 if not is_update_true_edge(a, dbb):
                     okw = False
                     detail.append("want = got outside update mode (comparison would be vacuous)")
             else:
                 okw = False
-                detail.append("want = %s" % sorted(mir.show_root(r) for r in src))
-    chk.require(okw and bool(wl), R_CMP, "Golden::assert|want is the golden content unless updating", a.loc(),
-                "; ".join(detail) or "no `want` local", "read mode: self.content; update mode: got")
+                detail.append("want = %s" % sorted(mir.show_root(r) for r in srs))
+    chk.require(okw, R_CMP, "Golden::assert|want is the golden content unless updating", a.loc(),
+                "; ".join(detail) or "the compared value never is self.content", "read mode: self.content; update mode: got")
     # nobody rewrites Golden.content after construction
     writers = []
     for b in golden_bodies(P):
@@ -440,8 +487,8 @@ def crlf(P, chk):
                 to = r.name
         ok = frm == '"\\r\\n"' and to == '"\\n"' and short(callee_def(t)) == "replace"
         detail = "replace(%s, %s)" % (frm, to)
-        # applied to (a view of) the text handed in
-        ok = ok and all(r.kind in ("param", "capture") for r in prov(x, t["args"][0]))
+        # applied to (a view of) the text handed in / just read
+        ok = ok and all(r.kind in ("param", "capture") or (r.kind == "call" and r.name == "std::fs::read_to_string") for r in prov(x, t["args"][0]))
     chk.require(ok, R_CRLF, "read_as_utf8|CRLF -> LF, nothing else", b.loc(), detail, "s.replace(\"\\r\\n\", \"\\n\")")
     # result = map(read_to_string(filename), closure)
     rts = [(bb, t) for bb, t in b.calls() if callee_def(t) == "std::fs::read_to_string"]
@@ -451,6 +498,12 @@ def crlf(P, chk):
     for r in rs:
         if okm and r.site is not None:
             okm = _from_site(b, b.term(r.site)["args"][0], rts[0][0])
+    if not okm and rts and reps and reps[0][0].key == b.key:
+        # `?` form: every Ok(..) carries the replaced text of what read_to_string returned; errors go through `?`
+        oks = [(bb, rv) for bb, v, rv in q.ok_err_assignments(b) if v == "Ok"]
+        rep_bb = reps[0][1]
+        okm = bool(oks) and all(q.all_roots(b, rv["fields"][0]["op"], lambda r: r.kind == "call" and r.site == rep_bb) for bb, rv in oks) and \
+            all(r.kind == "call" and r.site == rts[0][0] for r in prov(b, reps[0][2]["args"][0]))
     other = [short(callee_def(t)) for x in bodies for bb, t in x.calls()
              if short(callee_def(t)) in ("trim", "trim_end", "trim_start", "to_lowercase", "to_uppercase", "trim_matches",
                                          "trim_end_matches", "trim_start_matches", "strip_suffix", "strip_prefix", "lines",
